@@ -417,6 +417,16 @@ def env(config):
         _ENV[config] = base
     elif config == "public":
         _ENV["public"] = pub
+    elif config == "private-after-many-reloads":
+        # one private table initialised again and again with the documented reload=True (its properties list grows
+        # past 300 entries), the neutron data among them 40 times: the last load serves what the first one served
+        t = private("c07-reloaded")
+        for k in range(300):
+            density.init(t, reload=True)
+            if k % 8 == 0:
+                nsf.init(t, reload=True)
+        nsf.init(t, reload=True)
+        _ENV[config] = t
     elif config == "private-only":
         # the public table is never asked for neutron data in this process
         _ENV["private-only"] = private("c07-only")
@@ -840,7 +850,8 @@ def tasks(tier):
             ("sweep-private-only", task_sweep, dict(configs=["private-only", "private-only-added"])),
             ("sweep-private-after-public", task_sweep,
              dict(configs=["public", "private-after-public", "private-second", "public-after-private"])),
-            ("sweep-added-isotopes", task_sweep, dict(configs=["public-added", "private-added"]))
+            ("sweep-added-isotopes", task_sweep, dict(configs=["public-added", "private-added"])),
+            ("sweep-after-many-reloads", task_sweep, dict(configs=["private-after-many-reloads"]))
             ] + [("interpreter-mode-" + m, task_sweep,
                   dict(configs=["mode:%s:%s:%s" % (m, v, t)
                                 for v, t in (("plain", "public"), ("guarded", "public"), ("guarded", "private"))]))
